@@ -37,7 +37,7 @@ class Endpoint:
 
 class Sim:
     def __init__(self, seed, *, client_options=None, server_options=None, monitors=(),
-                 quic_logger=False, version=None):
+                 quic_logger=False, version=None, client_kwargs=None, server_kwargs=None):
         from aioquic.quic.configuration import QuicConfiguration
         from aioquic.quic.connection import QuicConnection
         from aioquic.quic.logger import QuicLogger
@@ -58,10 +58,11 @@ class Sim:
         cconf.load_verify_locations(cafile=os.path.join(TESTS, "pycacert.pem"))
         sconf = QuicConfiguration(is_client=False, quic_logger=QuicLogger() if quic_logger else None, **so)
         sconf.load_cert_chain(os.path.join(TESTS, "ssl_cert.pem"), os.path.join(TESTS, "ssl_key.pem"))
-        client = QuicConnection(configuration=cconf)
+        client = QuicConnection(configuration=cconf, **(client_kwargs or {}))
         server = QuicConnection(
             configuration=sconf,
             original_destination_connection_id=client.original_destination_connection_id,
+            **(server_kwargs or {}),
         )
         self.client = Endpoint("client", client, CLIENT_ADDR)
         self.server = Endpoint("server", server, SERVER_ADDR)
